@@ -103,6 +103,12 @@ func (fw *CPTVFileRecorder) StartRecording(background *cptvframe.Frame, tempThre
 		leptondController.SetAutoFFC(false)
 	}
 	filename := filepath.Join(fw.outputDir, newRecordingTempName())
+	// Names have millisecond resolution and the motion and test recorders share
+	// a directory: never reuse the name of a recording that already exists.
+	for fileExists(filename) || fileExists(recordingFinalName(filename)) {
+		time.Sleep(time.Millisecond)
+		filename = filepath.Join(fw.outputDir, newRecordingTempName())
+	}
 	if fw.constantRecorder {
 		log.Printf("constant recording started: %s", filename)
 	} else {
@@ -165,6 +171,11 @@ func (fw *CPTVFileRecorder) WriteFrame(frame *cptvframe.Frame) error {
 	verifPoint("rec.write.before")
 	defer verifPoint("rec.write.after")
 	return fw.writer.WriteFrame(frame)
+}
+
+func fileExists(filename string) bool {
+	_, err := os.Lstat(filename)
+	return err == nil
 }
 
 func newRecordingTempName() string {
